@@ -490,10 +490,202 @@ theorem corruption_fails_witness : ¬ corruption_fails_full := by
     (by decide) (by decide) witDb []
   exact this (by decide)
 
-/-- transport compression is transparent for any codec with the round-trip law -/
-theorem compression_transparent (E : Ext) (due : Bool) (comp decomp : Bytes → Bytes)
-    (hlaw : ∀ x, decomp (comp x) = x) (s : Bytes) :
-    install E due [decomp (comp s)] = install E due [s] := by rw [hlaw]
+/-! ### single edits of a stream: the true statements, what holds, what does not -/
+
+/-- one flipped byte, one dropped byte, one inserted byte, or a truncation, at byte position `pos`
+(the first `pos` bytes are untouched) -/
+inductive EditAt : Nat → Bytes → Bytes → Prop
+  | flip (pre post : Bytes) (x y : UInt8) : x ≠ y → EditAt pre.length (pre ++ x :: post) (pre ++ y :: post)
+  | drop (pre post : Bytes) (x : UInt8) : EditAt pre.length (pre ++ x :: post) (pre ++ post)
+  | insert (pre post : Bytes) (y : UInt8) : EditAt pre.length (pre ++ post) (pre ++ y :: post)
+  | trunc (s : Bytes) (k : Nat) : k < s.length → EditAt k s (s.take k)
+
+def Edit (s s' : Bytes) : Prop := ∃ pos, EditAt pos s s'
+
+theorem EditAt.ne {pos : Nat} {s s' : Bytes} (e : EditAt pos s s') : s' ≠ s := by
+  cases e with
+  | flip pre post x y h =>
+    intro e
+    have : y = x := by simpa using e
+    exact h this.symm
+  | drop pre post x => intro e; have := congrArg List.length e; simp at this
+  | insert pre post y => intro e; have := congrArg List.length e; simp at this
+  | trunc s k h => intro e; have := congrArg List.length e; simp at this; omega
+
+theorem EditAt.take_eq {pos : Nat} {s s' : Bytes} (e : EditAt pos s s') : s'.take pos = s.take pos := by
+  cases e with
+  | flip pre post x y h => simp
+  | drop pre post x => simp
+  | insert pre post y => simp
+  | trunc s k h => rw [List.take_take, Nat.min_self]
+
+/-- the property's letter: any single edit of an installable stream makes the install fail -/
+def any_edit_fails_full : Prop :=
+  ∀ (E : Ext), NoCollision E → ∀ (s s' db : Bytes) (wals : List Bytes),
+    install E false [s] = .installed db wals → Edit s s' → ∀ db' wals', install E false [s'] ≠ .installed db' wals'
+
+/-- the safety reading: any single edit makes the install fail OR what is installed is the
+source data -/
+def any_edit_safe_full : Prop :=
+  ∀ (E : Ext), NoCollision E → ∀ (s s' db : Bytes) (wals : List Bytes),
+    install E false [s] = .installed db wals → Edit s s' →
+    ∀ db' wals', install E false [s'] = .installed db' wals' → db' = db ∧ wals' = wals
+
+/-- **edit_in_data_fails** (partial 1): an edit that leaves the length prefix and the header
+bytes untouched — any flip, drop, insert in the database or WAL bytes, any truncation there —
+makes the install fail (no CRC collision assumed). -/
+theorem edit_in_data_fails (E : Ext) (hc : NoCollision E) (s s' db : Bytes) (wals : List Bytes)
+    (h : install E false [s] = .installed db wals) (pos : Nat) (e : EditAt pos s s') (hpos : 4 + be32 s ≤ pos) :
+    ∀ db' wals', install E false [s'] ≠ .installed db' wals' := by
+  apply data_corruption_fails E hc s s' db wals h e.ne
+  have := e.take_eq
+  have h1 : s'.take (4 + be32 s) = (s'.take pos).take (4 + be32 s) := by
+    rw [List.take_take]; congr 1; omega
+  have h2 : s.take (4 + be32 s) = (s.take pos).take (4 + be32 s) := by
+    rw [List.take_take]; congr 1; omega
+  rw [h1, h2, this]
+
+/-- **truncation anywhere fails** (partial 2), in the edit vocabulary -/
+theorem edit_truncation_fails (E : Ext) (s db : Bytes) (wals : List Bytes)
+    (h : install E false [s] = .installed db wals) (k : Nat) (hk : k < s.length) :
+    ∀ db' wals', install E false [s.take k] ≠ .installed db' wals' := by
+  intro db' wals' h'
+  exact restore_truncation_fails E s db wals (install_implies_restore E false s db wals h).1 k hk db' wals'
+    (install_implies_restore E false _ db' wals' h').1
+
+/-- the receivers read a stream only through its length prefix, the decoded header and the
+bytes after the header: two streams that agree on these restore identically -/
+theorem restore_depends_on_decoded_header (E : Ext) (s s' : Bytes) (hl : s'.length = s.length)
+    (hn : be32 s' = be32 s) (hd : E.decode (hdrBytes s') = E.decode (hdrBytes s))
+    (hb : s'.drop (4 + be32 s) = s.drop (4 + be32 s)) : restore E s' = restore E s := by
+  simp only [restore, hl, hn]
+  simp only [hdrBytes, hn] at hd
+  rw [hd, hb]
+
+/-- **edit_decoding_identically_same_data** (partial 3): an edit inside the header bytes that
+protobuf decodes to the same header cannot change what is installed (it does NOT make the
+install fail: see `any_edit_fails_witness`). -/
+theorem edit_decoding_identically_same_data (E : Ext) (s s' db : Bytes) (wals : List Bytes)
+    (h : install E false [s] = .installed db wals) (hl : s'.length = s.length)
+    (hn : be32 s' = be32 s) (hd : E.decode (hdrBytes s') = E.decode (hdrBytes s))
+    (hb : s'.drop (4 + be32 s) = s.drop (4 + be32 s)) :
+    ∀ db' wals', install E false [s'] = .installed db' wals' → db' = db ∧ wals' = wals := by
+  intro db' wals' h'
+  have r := (install_implies_restore E false s db wals h).1
+  have r' := (install_implies_restore E false s' db' wals' h').1
+  rw [restore_depends_on_decoded_header E s s' hl hn hd hb, r] at r'
+  obtain ⟨rfl, rfl⟩ := RestoreRes.ok.inj r'
+  exact ⟨rfl, rfl⟩
+
+/-- **witness against the letter**: one flipped header byte that decodes identically installs -/
+theorem any_edit_fails_witness : ¬ any_edit_fails_full := by
+  intro h
+  have hs : frame [7, 7] [witDb] = [0, 0, 0, 2, 7] ++ 7 :: witDb := by decide
+  have hs' : frame [7, 8] [witDb] = [0, 0, 0, 2, 7] ++ 8 :: witDb := by decide
+  have := h witExt (fun x y hl he => byteNat_inj x y hl he)
+    (frame [7, 7] [witDb]) (frame [7, 8] [witDb]) witDb [] (by decide)
+    (by rw [hs, hs']; exact ⟨_, EditAt.flip _ _ 7 8 (by decide)⟩) witDb []
+  exact this (by decide)
+
+/-- an adversarial header decoder: the second header byte selects how the same three data
+bytes are split into files -/
+def advExt : Ext :=
+  { decode := fun b =>
+      if b = [7, 7] then some ⟨1, .full (some ⟨3, byteNat [83, 81, 76]⟩) []⟩
+      else if b = [7, 8] then some ⟨1, .full (some ⟨2, byteNat [83, 81]⟩) [⟨1, byteNat [76]⟩]⟩
+      else none,
+    crc := byteNat, validDb := fun _ => true, validWal := fun _ => true }
+
+/-- **witness against the safety reading for an arbitrary decoder**: `any_edit_safe_full` needs
+a fact about the header codec (a single edit does not turn a header into another header that is
+consistent with the same bytes); for an abstract decoder it is false. For the real protobuf
+codec it is checked by running every single-bit flip, drop, insert and truncation at every
+position (no "altered data installed" is ever observed). -/
+theorem any_edit_safe_witness : ¬ any_edit_safe_full := by
+  intro h
+  have hs : frame [7, 7] [[83, 81, 76]] = [0, 0, 0, 2, 7] ++ 7 :: [83, 81, 76] := by decide
+  have hs' : frame [7, 8] [[83, 81, 76]] = [0, 0, 0, 2, 7] ++ 8 :: [83, 81, 76] := by decide
+  have := h advExt (fun x y hl he => byteNat_inj x y hl he)
+    (frame [7, 7] [[83, 81, 76]]) (frame [7, 8] [[83, 81, 76]]) [83, 81, 76] [] (by decide)
+    (by rw [hs, hs']; exact ⟨_, EditAt.flip _ _ 7 8 (by decide)⟩) [83, 81] [[76]] (by decide)
+  exact absurd this.1 (by decide)
+
+/-! ### transport compression -/
+
+/-- the statement one would like: with compression on, whatever the sender's payload, the
+receiver's sink behaves as if it had been written the payload directly -/
+def transport_transparent_full : Prop :=
+  ∀ (E : Ext) (Z : Zstd), Z.Lawful → ∀ (due : Bool) (p : Bytes), p.length < 9223372036854775808 →
+    installVia E Z due p.length (sendWire Z p.length p) = install E due [p]
+
+/-- **transport_transparent_partial**: it holds whenever the wire form (8 bytes + compressed
+payload) is not longer than the payload, i.e. fits into the `req.Size` bytes that raft's
+`io.LimitReader(conn, req.Size)` lets the receiver read. -/
+theorem transport_transparent_partial (E : Ext) (Z : Zstd) (hZ : Z.Lawful) (due : Bool) (p : Bytes)
+    (hp : p.length < 9223372036854775808) (hfit : (sendWire Z p.length p).length ≤ p.length) :
+    installVia E Z due p.length (sendWire Z p.length p) = install E due [p] := by
+  simp [installVia, transport_transparent Z hZ p hp hfit]
+
+/-- a lawful toy codec that expands: content, then an end marker -/
+def expZ : Zstd :=
+  { comp := fun x => x ++ [255],
+    dec := fun w => match w.reverse with
+      | 255 :: r => (r.reverse, true)
+      | _ => (w, false) }
+
+/-- the size prefix: a larger declared size goes unnoticed (the decoder ends first, cleanly);
+a smaller one delivers a prefix, which raft's byte count then rejects -/
+theorem size_prefix_larger_unnoticed (Z : Zstd) (hZ : Z.Lawful) (p : Bytes) (n raftSize : Nat)
+    (hn : p.length < n) (hn64 : n < 9223372036854775808) (hfit : (sendWire Z n p).length ≤ raftSize) :
+    recvWire Z raftSize (sendWire Z n p) = ⟨p, false⟩ := by
+  have ht : (sendWire Z n p).take raftSize = sendWire Z n p := List.take_of_length_le hfit
+  simp only [recvWire, ht]
+  have hne : sendWire Z n p ≠ [] := by simp [sendWire, enc64, enc32]
+  have hl8 : ¬ (sendWire Z n p).length < 8 := by simp [sendWire, enc64_length]
+  have hb : be64 (sendWire Z n p) = n := be64_enc64_append _ _ (by omega)
+  rw [if_neg hne, if_neg hl8, hb, if_neg (by omega)]
+  have hd : (sendWire Z n p).drop 8 = Z.comp p := by
+    simp only [sendWire]; exact List.drop_left' (enc64_length _)
+  have := hZ.roundtrip p []
+  simp only [List.append_nil] at this
+  rw [hd, this]
+  simp; omega
+
+/-- bytes the sender compresses beyond the declared size are dropped silently by the receiver's
+`io.LimitReader(dec, n)` (they never reach the sink, and no error is raised) -/
+theorem bytes_after_declared_size_dropped (Z : Zstd) (hZ : Z.Lawful) (p extra : Bytes) (raftSize : Nat)
+    (hn64 : p.length < 9223372036854775808) (hfit : (sendWire Z p.length (p ++ extra)).length ≤ raftSize) :
+    recvWire Z raftSize (sendWire Z p.length (p ++ extra)) = ⟨p, false⟩ := by
+  have ht : (sendWire Z p.length (p ++ extra)).take raftSize = sendWire Z p.length (p ++ extra) :=
+    List.take_of_length_le hfit
+  simp only [recvWire, ht]
+  have hne : sendWire Z p.length (p ++ extra) ≠ [] := by simp [sendWire, enc64, enc32]
+  have hl8 : ¬ (sendWire Z p.length (p ++ extra)).length < 8 := by simp [sendWire, enc64_length]
+  have hb : be64 (sendWire Z p.length (p ++ extra)) = p.length := be64_enc64_append _ _ (by omega)
+  rw [if_neg hne, if_neg hl8, hb, if_neg (by omega)]
+  have hd : (sendWire Z p.length (p ++ extra)).drop 8 = Z.comp (p ++ extra) := by
+    simp only [sendWire]; exact List.drop_left' (enc64_length _)
+  have := hZ.roundtrip (p ++ extra) []
+  simp only [List.append_nil] at this
+  rw [hd, this]
+  simp
+
+/-- whatever arrives over the compressing transport is judged by the sink on the delivered
+bytes alone: the transport adds no way of getting something installed (so `install_exact`,
+`truncation_fails`, `edit_in_data_fails`, … apply to the delivered bytes) -/
+theorem transport_adds_no_acceptance (E : Ext) (Z : Zstd) (due : Bool) (raftSize : Nat) (wire db : Bytes)
+    (wals : List Bytes) (h : installVia E Z due raftSize wire = .installed db wals) :
+    (recvWire Z raftSize wire).err = false ∧ (recvWire Z raftSize wire).delivered.length = raftSize ∧
+    install E due [(recvWire Z raftSize wire).delivered] = .installed db wals := by
+  unfold installVia at h
+  simp only at h
+  split at h
+  · cases h
+  rename_i h1
+  split at h
+  · cases h
+  rename_i h2
+  exact ⟨by simpa using h1, by simpa using h2, h⟩
 
 /-- anything the sink installs passed the validity and CRC checks against the header the
 stream carried -/
@@ -533,5 +725,14 @@ example : install exExt false [(frame exHb [exDb]).take 9, (frame exHb [exDb]).d
 example : install exExt false [frame exHb [exDb] ++ [0]] = .writeErr .unexpectedData := by decide
 example : restore exExt (frame exHb [exDb] ++ [0]) = .err .trailingData := by decide
 example : install exExt false [(frame exHb [exDb]).take 5] = .closeErr .incomplete := by decide
+
+/-- **witness**: an incompressible payload (wire longer than `req.Size`) is cut by raft's
+LimitReader; the decompressor fails and nothing can be installed — although nothing was corrupted -/
+theorem transport_transparent_witness :
+    installVia exExt expZ false (frame exHb [exDb]).length (sendWire expZ (frame exHb [exDb]).length (frame exHb [exDb]))
+      = .writeErr .transport ∧
+    install exExt false [frame exHb [exDb]] = .installed exDb [] := by
+  refine ⟨by decide, by decide⟩
+
 
 end C10
